@@ -240,12 +240,15 @@ static void w_audit(void)
 {
     int v, k, ab;
     for (v = 0; v < 2; v++) {
-        static const int which[] = { 0, 1, 2, 3, 4 };
+        static const int which[] = { 0, 1, 2, 3, 4, 5, 6, 7 };
         check_storage(v, "state audit");
         if (mc_branch_dead) return;
         MC_CHECK(PC09, (V[v].elem.xtor.cons != NULL) == M[v].xt && (V[v].elem.xtor.dest != NULL) == M[v].xt, "vector %d %s a constructor/destructor, reference says it %s", v, V[v].elem.xtor.cons ? "has" : "lacks", M[v].xt ? "has" : "lacks");
-        for (k = 0; k < 5; k++) {
-            size_t i = which[k] == 0 ? 0 : which[k] == 1 ? M[v].size - 1 : which[k] == 2 ? M[v].size : which[k] == 3 ? M[v].size + 1 : SIZE_MAX;
+        for (k = 0; k < 8; k++) {
+            /* 5..7: indices whose byte offset i*element_size wraps around to a small value */
+            size_t wrap = SIZE_MAX / M[v].es + 1;
+            size_t i = which[k] == 0 ? 0 : which[k] == 1 ? M[v].size - 1 : which[k] == 2 ? M[v].size : which[k] == 3 ? M[v].size + 1 : which[k] == 4 ? SIZE_MAX : which[k] == 5 ? wrap : which[k] == 6 ? wrap + 1 : wrap + M[v].size - 1;
+            if (which[k] >= 5 && (M[v].es == 1 || i < M[v].size)) continue;
             static void * volatile e;
             if (which[k] == 1 && M[v].size == 0) continue;
             e = NULL;
